@@ -129,3 +129,64 @@ Definition uses_ok (uses : list cuse) : Prop :=
             ~ (u_name u = "cellOrientation_" /\ In (u_fn u) Rg))
        | UOther | UCallNC | UUnknown => False
        end).
+
+(* ================================================================================================
+   C10, static part -- member functions of Circuit itself (table [circuit_methods], same generator):
+   which ones can change a field, and whether checkNotInUse() comes first.  *)
+Record cmethod := mkM { m_name : string; m_public : bool; m_const : bool; m_guard : nat;
+                        m_writes : list (string * nat); m_calls : list string }.
+
+(* what C10 calls the structure of the circuit: nets, pins, rows, fixed / obstruction flags, polarities *)
+Definition structural_fields : list string :=
+  ["netLimits_"; "pinCells_"; "pinXOffsets_"; "pinYOffsets_"; "rows_"; "cellIsFixed_"; "cellIsObstruction_";
+   "cellRowPolarity_"].
+
+(* the fourteen setters of coq/Api.v with [Api.guarded] (tied to Api.v by ApiAccessProofs.setter_table_matches_model) *)
+Definition modelled_setters : list (string * bool) :=
+  [("addNet", true); ("setNets", true); ("setRows", true); ("setupRows", true); ("setCellIsFixed", true);
+   ("setCellIsObstruction", true); ("setCellRowPolarity", true);
+   ("setCellX", false); ("setCellY", false); ("setCellOrientation", false); ("setCellWidth", false);
+   ("setCellHeight", false); ("setNetWeights", false); ("setSolution", false)].
+
+(* the other member functions that may change something: the placement entry points (modelled by Api.call: they
+   only take the in-use flag and hand *this to the algorithms) and the two expansion functions (C18: widths) *)
+Definition entry_methods : list string := ["placeGlobal"; "legalize"; "placeDetailed"; "place"].
+Definition expansion_methods : list string := ["expandCellsToDensity"; "expandCellsByFactor"].
+
+Definition lookup_guarded (n : string) : option bool :=
+  match filter (fun p => String.eqb (fst p) n) modelled_setters with
+  | p :: _ => Some (snd p)
+  | [] => None
+  end.
+
+Definition method_okb (m : cmethod) : bool :=
+  if m_const m then true
+  else
+    let touches_struct := existsb (fun w => mem (fst w) structural_fields) (m_writes m) in
+    let guarded_first := negb (Nat.eqb (m_guard m) 0) && forallb (fun w => Nat.ltb (m_guard m) (snd w)) (m_writes m) in
+    (* R1: a member function that can change the structure calls checkNotInUse() before its first write *)
+    (negb touches_struct || guarded_first)
+    (* R2 + R3: it is one of the functions the models know, with the guard the model says *)
+    && match lookup_guarded (m_name m) with
+       | Some g => Bool.eqb g (negb (Nat.eqb (m_guard m) 0)) && (negb g || guarded_first)
+       | None =>
+           Nat.eqb (m_guard m) 0
+           && (if mem (m_name m) entry_methods then forallb (fun w => String.eqb (fst w) "isInUse_") (m_writes m)
+               else if mem (m_name m) expansion_methods then forallb (fun w => String.eqb (fst w) "cellWidth_") (m_writes m)
+               else match m_writes m with [] => true | _ => false end)
+       end.
+
+Definition circuit_methods_okb (ms : list cmethod) : bool :=
+  forallb method_okb ms
+  (* non-degenerate: every modelled setter exists as a public non-const member function *)
+  && forallb (fun p => existsb (fun m => String.eqb (m_name m) (fst p) && m_public m && negb (m_const m)) ms) modelled_setters.
+
+Definition methods_ok (ms : list cmethod) : Prop :=
+  (forall m, In m ms -> m_const m = false ->
+     (* R1 *) ((exists w, In w (m_writes m) /\ In (fst w) structural_fields) ->
+               m_guard m <> O /\ forall w, In w (m_writes m) -> (m_guard m < snd w)%nat) /\
+     (* R2 *) (forall g, In (m_name m, g) modelled_setters -> NoDup (map fst modelled_setters) ->
+               (g = true <-> m_guard m <> O)) /\
+     (* R3 *) ((exists w, In w (m_writes m)) ->
+               In (m_name m) (map fst modelled_setters) \/ In (m_name m) entry_methods \/ In (m_name m) expansion_methods)) /\
+  (forall p, In p modelled_setters -> exists m, In m ms /\ m_name m = fst p /\ m_public m = true /\ m_const m = false).
